@@ -60,17 +60,42 @@ def parse_type(toks, pos=0):
     return dict(t), pos + 1
 
 
-class ProgramText:
-    """One abstract program -> two IDL files (module A; module B including A) + an extras file."""
+def assign_uids(prog):
+    """Stable ids for the droppable elements of an abstract program (kept when elements are removed)."""
+    n = 0
+    for s in prog["structs"]:
+        for m in s["mems"]:
+            n += 1
+            m.setdefault("uid", n)
+    for f in prog["funcs"]:
+        n += 1
+        f.setdefault("uid", n)
+        for q in f["params"]:
+            n += 1
+            q.setdefault("uid", n)
+    for c in prog["consts"]:
+        n += 1
+        c.setdefault("uid", n)
+    return prog
 
-    def __init__(self, prog, k, rng):
-        self.prog, self.k, self.rng = prog, k, rng
+
+class ProgramText:
+    """One abstract program -> two IDL files (module A; module B including A) + an extras file.
+    Lexical decisions of an element depend only on (seed, program number, element uid), so that an element
+    is written the same way when other elements are removed."""
+
+    def __init__(self, prog, k, seed):
+        assign_uids(prog)
+        self.prog, self.k, self.seed = prog, k, seed
+        rng = self.rng = random.Random("%s:%s:layout" % (seed, k))
         self.modname = {"A": rng.choice(["Ga%d", "ga%d", "Mod_a%d"]) % k, "B": rng.choice(["Gb%d", "gb%d", "Mod_b%d"]) % k}
         self.fname = {"A": "P%da.tars" % k, "B": "P%db.tars" % k}
         self.crlf = rng.random() < 0.1
+        self.ind = rng.choice(["    ", "\t", "  "])
+        self.brace = rng.choice([" {", "\n{"])
         self.enum_names, self.enum_members, self.enum_values = [], [], []
         self.struct_names = []
-        self.features = []      # (kind, description) per rendered element, for diagnostics
+        self.feature = {}       # uid -> description of the element as written
         ec = 0
         for i, e in enumerate(prog["enums"]):
             self.enum_names.append("%s%d" % (rng.choice(ENUMS), i + 1))
@@ -89,36 +114,47 @@ class ProgramText:
         for i, s in enumerate(prog["structs"]):
             self.struct_names.append("%s%d" % (rng.choice(STRUCTS), i + 1))
 
+    def erng(self, uid):
+        return random.Random("%s:%s:%s" % (self.seed, self.k, uid))
+
     # -- helpers
-    def ref(self, kind, i, frm):
+    def ref(self, kind, i, frm, rng, marks):
         """name of enum/struct i as written in module frm"""
         seq = self.prog["enums"] if kind == "enum" else self.prog["structs"]
         name = (self.enum_names if kind == "enum" else self.struct_names)[i - 1]
         mod = seq[i - 1]["mod"]
-        if mod != frm or self.rng.random() < 0.15:
+        if mod != frm:
+            marks.add("x" + kind)
             return "%s::%s" % (self.modname[mod], name)
+        if rng.random() < 0.15:
+            marks.add("q" + kind)
+            return "%s::%s" % (self.modname[mod], name)
+        marks.add(kind)
+        if kind == "enum" and name[0].islower():
+            marks.add("lcenum")
         return name
 
-    def type_text(self, tree, frm):
+    def type_text(self, tree, frm, rng, marks):
         k = tree["k"]
-        sp = self.rng.choice(["", "", " "])
+        sp = rng.choice(["", "", " "])
         if k == "vec":
-            return "vector<%s%s%s>" % (sp, self.type_text(tree["el"], frm), sp)
+            return "vector<%s%s%s>" % (sp, self.type_text(tree["el"], frm, rng, marks), sp)
         if k == "map":
-            return "map<%s%s,%s%s%s>" % (sp, self.type_text(tree["key"], frm), self.rng.choice(["", " "]), self.type_text(tree["val"], frm), sp)
+            return "map<%s%s,%s%s%s>" % (sp, self.type_text(tree["key"], frm, rng, marks), rng.choice(["", " "]),
+                                         self.type_text(tree["val"], frm, rng, marks), sp)
         if k in ("enum", "struct"):
-            return self.ref(k, tree["i"], frm)
+            return self.ref(k, tree["i"], frm, rng, marks)
         return SCALAR_IDL[k]
 
-    def comment(self):
-        r = self.rng.random()
+    def comment(self, rng):
+        r = rng.random()
         if r < 0.08:
-            return "  // " + self.rng.choice(["note", "tag order is free", "see struct { above };", "\"quoted\""])
+            return "  // " + rng.choice(["note", "tag order is free", "see struct { above };", "\"quoted\""])
         if r < 0.12:
-            return "  /* " + self.rng.choice(["block", "multi\n   line * comment", "a;b{c}"]) + " */"
+            return "  /* " + rng.choice(["block", "multi\n   line * comment", "a;b{c}"]) + " */"
         return ""
 
-    def default_text(self, m, tree, frm):
+    def default_text(self, m, tree, frm, rng, marks):
         d = m["def"]
         if d == "none":
             return ""
@@ -128,24 +164,46 @@ class ProgramText:
                 lit = '"%s"' % (UTF8 if lit == "@utf8" else lit)
             return " = " + lit
         e = tree["i"]
-        j = self.rng.randrange(len(self.enum_members[e - 1]))
+        j = rng.randrange(len(self.enum_members[e - 1]))
         if d == "num":
+            marks.add("default-number")
             return " = %d" % self.enum_values[e - 1][j][1]
         nm = self.enum_members[e - 1][j]
         emod = self.prog["enums"][e - 1]["mod"]
-        if emod != frm or self.rng.random() < 0.3:
+        marks.add("default-member")
+        if self.enum_names[e - 1][0].islower():
+            marks.add("lcenum")
+        if emod != frm or rng.random() < 0.3:
             return " = %s::%s" % (self.modname[emod], nm)
         return " = " + nm
 
+    def describe(self, head, tree, marks, m=None):
+        top = tree["k"] if tree else "void"
+        top = {"vec": "vector", "map": "map"}.get(top, top)
+        refs = sorted(x for x in marks if x in ("enum", "struct", "xenum", "xstruct", "qenum", "qstruct"))
+        if m is not None and m["arr"]:
+            return "array:of=" + ("+".join(refs) if refs else top)
+        parts = [head, top]
+        if tree and tree["k"] in ("vec", "map") and refs:
+            parts.append("of=" + "+".join(refs))
+        elif refs and refs[0][0] in "xq":
+            parts[-1] = refs[0]
+        for x in ("lcenum", "default-member", "default-number"):
+            if x in marks:
+                parts.append(x)
+        if m is not None and m["def"].startswith("lit:"):
+            parts.append("default")
+        if m is not None and m["def"] == "none" and not m["arr"]:
+            parts.append("nodefault")
+        return ":".join(parts)
+
     def module_text(self, mod):
-        P, rng = self.prog, self.rng
-        ind = rng.choice(["    ", "\t", "  "])
+        P, rng, ind, brace = self.prog, random.Random("%s:%s:%s" % (self.seed, self.k, mod)), self.ind, self.brace
         out = []
         if mod == "B":
             out.append('#include "%s"' % self.fname["A"])
         if rng.random() < 0.3:
             out.append("// generated test program %d, module %s" % (self.k, mod))
-        brace = rng.choice([" {", "\n{"])
         out.append("module %s%s" % (self.modname[mod], brace))
         for i, e in enumerate(P["enums"]):
             if e["mod"] != mod:
@@ -153,56 +211,71 @@ class ProgramText:
             items = []
             for nm, (kind, val) in zip(self.enum_members[i], self.enum_values[i]):
                 items.append(nm if kind == "auto" else "%s = %d" % (nm, val))
-            self.features.append(("enum", "enum:" + ",".join(k for k, _ in self.enum_values[i])))
             if rng.random() < 0.5:
-                out.append("%senum %s { %s };%s" % (ind, self.enum_names[i], ", ".join(items), self.comment()))
+                out.append("%senum %s { %s };%s" % (ind, self.enum_names[i], ", ".join(items), self.comment(rng)))
             else:
                 out.append("%senum %s%s" % (ind, self.enum_names[i], brace.replace("\n", "\n" + ind)))
-                out += ["%s%s%s%s" % (ind * 2, it, "," if n < len(items) - 1 else "", self.comment()) for n, it in enumerate(items)]
+                out += ["%s%s%s%s" % (ind * 2, it, "," if n < len(items) - 1 else "", self.comment(rng)) for n, it in enumerate(items)]
                 out.append("%s};" % ind)
         nconst = 0
         for c in P["consts"]:
             if c["mod"] != mod:
                 continue
             nconst += 1
+            er = self.erng(c["uid"])
             lit = c["lit"]
             if c["ty"] == "string":
                 lit = '"%s"' % (UTF8 if lit == "@utf8" else lit)
-            self.features.append(("const", "const:%s" % c["ty"]))
-            out.append("%sconst %s %s%d = %s;%s" % (ind, SCALAR_IDL[c["ty"]], rng.choice(CONSTS), nconst, lit, self.comment()))
+            self.feature[c["uid"]] = "const:%s" % c["ty"]
+            out.append("%sconst %s %s%d = %s;%s" % (ind, SCALAR_IDL[c["ty"]], er.choice(CONSTS), nconst, lit, self.comment(er)))
         for i, s in enumerate(P["structs"]):
             if s["mod"] != mod:
                 continue
             out.append("%sstruct %s%s" % (ind, self.struct_names[i], brace.replace("\n", "\n" + ind)))
-            names = rng.sample(MEMBERS, len(s["mems"]))
-            for m, nm in zip(s["mems"], names):
+            names = random.Random("%s:%s:s%d" % (self.seed, self.k, i)).sample(MEMBERS, len(MEMBERS))
+            used = []
+            for m in s["mems"]:
+                er = self.erng(m["uid"])
+                nm = names[m["uid"] % len(names)]
+                while nm in used:
+                    nm = names[(names.index(nm) + 1) % len(names)]
+                used.append(nm)
                 tree, _ = parse_type(m["ty"])
+                marks = set()
                 arr = "[%d]" % m["arr"] if m["arr"] else ""
-                self.features.append(("member", "%s:%s:%s%s" % ("require" if m["req"] else "optional", shape(tree),
-                                                                 "default" if m["def"] != "none" else "nodefault",
-                                                                 ":array" if m["arr"] else "")))
-                out.append("%s%d %s %s %s%s%s;%s" % (ind * 2, m["tag"], "require" if m["req"] else "optional",
-                                                     self.type_text(tree, mod), nm, arr, self.default_text(m, tree, mod), self.comment()))
+                tt = self.type_text(tree, mod, er, marks)
+                dt = self.default_text(m, tree, mod, er, marks)
+                self.feature[m["uid"]] = self.describe("require" if m["req"] else "optional", tree, marks, m)
+                out.append("%s%d %s %s %s%s%s;%s" % (ind * 2, m["tag"], "require" if m["req"] else "optional", tt, nm, arr, dt, self.comment(er)))
             out.append("%s};" % ind)
             if s["keyable"] is False and s["mems"] and rng.random() < 0.2:
-                out.append("%skey[%s, %s];" % (ind, self.struct_names[i], names[0]))
+                out.append("%skey[%s, %s];" % (ind, self.struct_names[i], used[0]))
         fs = [f for f in P["funcs"] if f["mod"] == mod]
         if fs:
-            cut = rng.randrange(1, len(fs) + 1)
+            cut = 1 + fs[0]["uid"] % len(fs)
             groups = [g for g in (fs[:cut], fs[cut:]) if g]
-            fc = 0
             for gi, g in enumerate(groups):
                 out.append("%sinterface %s%d%s" % (ind, rng.choice(IFACES), gi + 1, brace.replace("\n", "\n" + ind)))
                 for f in g:
-                    fc += 1
-                    ret = "void" if not f["ret"] else self.type_text(parse_type(f["ret"])[0], mod)
-                    pn = rng.sample(PARAMS, len(f["params"]))
-                    ps = []
-                    for p, n in zip(f["params"], pn):
-                        tree, _ = parse_type(p["ty"])
-                        self.features.append(("param", "%s:%s" % ("out" if p["out"] else "in", shape(tree))))
-                        ps.append("%s%s %s" % ("out " if p["out"] else "", self.type_text(tree, mod), n))
-                    out.append("%s%s %s%d(%s);%s" % (ind * 2, ret, rng.choice(FUNCS), fc, ", ".join(ps), self.comment()))
+                    er = self.erng(f["uid"])
+                    marks = set()
+                    rtree = parse_type(f["ret"])[0] if f["ret"] else None
+                    ret = "void" if rtree is None else self.type_text(rtree, mod, er, marks)
+                    self.feature[f["uid"]] = self.describe("return", rtree, marks)
+                    pn = er.sample(PARAMS, len(PARAMS))
+                    ps, usedp = [], []
+                    for q in f["params"]:
+                        pr = self.erng(q["uid"])
+                        n = pn[q["uid"] % len(pn)]
+                        while n in usedp:
+                            n = pn[(pn.index(n) + 1) % len(pn)]
+                        usedp.append(n)
+                        tree, _ = parse_type(q["ty"])
+                        marks = set()
+                        tt = self.type_text(tree, mod, pr, marks)
+                        self.feature[q["uid"]] = self.describe("out-param" if q["out"] else "in-param", tree, marks)
+                        ps.append("%s%s %s" % ("out " if q["out"] else "", tt, n))
+                    out.append("%s%s %s%d(%s);%s" % (ind * 2, ret, er.choice(FUNCS), f["uid"], ", ".join(ps), self.comment(er)))
                 out.append("%s};" % ind)
         out.append("};")
         text = "\n".join(out) + "\n"
@@ -212,8 +285,8 @@ class ProgramText:
         """constructs the independent schema extractor cannot read (by-name enum values): compiled only"""
         k = self.k
         return ("module Gx%d {\n  enum ByName%d { XA_%d, XB_%d = 7, XC_%d = XA_%d, XD_%d };\n"
-                "  struct Empty%d { };\n  interface Bare%d { };\n  interface OnlyVoid%d { void nop(); };\n};\n"
-                % (k, k, k, k, k, k, k, k, k, k))
+                "  struct Empty%d { };\n  interface OnlyVoid%d { void nop(); };\n};\n"
+                % (k, k, k, k, k, k, k, k, k))
 
 
 def shape(tree):
@@ -225,39 +298,58 @@ def shape(tree):
     return k
 
 
-def drop_element(prog, kind, idx):
-    """Abstract program with one element removed (for shrinking a failing program): kind in member(si, mi) /
-    param(fi, pi) / func(fi) / const(ci).  Returns a deep copy; references stay valid because structs and
-    enums themselves are never removed."""
+def element_uids(prog):
+    """uids of the elements that may be removed without invalidating the program (a struct used as a map key keeps
+    its last member; structs and enums themselves always stay, so references stay valid)."""
+    out = []
+    for s in prog["structs"]:
+        out += [m["uid"] for m in s["mems"] if m["uid"] > 0]
+    for f in prog["funcs"]:
+        out.append(f["uid"])
+        out += [q["uid"] for q in f["params"]]
+    out += [c["uid"] for c in prog["consts"]]
+    return out
+
+
+BENIGN = {"tag": 0, "req": True, "ty": [{"k": "int"}], "def": "none", "arr": 0, "uid": -1}
+
+
+def without(prog, drop):
+    """the program minus the elements whose uid is in drop"""
     p = json.loads(json.dumps(prog))
-    if kind == "member":
-        del p["structs"][idx[0]]["mems"][idx[1]]
-        p["structs"][idx[0]]["keyable"] = False if not p["structs"][idx[0]]["mems"] else p["structs"][idx[0]]["keyable"]
-    elif kind == "param":
-        del p["funcs"][idx[0]]["params"][idx[1]]
-    elif kind == "func":
-        del p["funcs"][idx[0]]
-    elif kind == "const":
-        del p["consts"][idx[0]]
+    for s in p["structs"]:
+        keep = [m for m in s["mems"] if m["uid"] not in drop]
+        if s["keyable"] and not keep:
+            keep = [dict(BENIGN)]       # a struct used as a map key stays a keyable, non-empty struct
+        s["mems"] = keep
+    p["funcs"] = [f for f in p["funcs"] if f["uid"] not in drop]
+    for f in p["funcs"]:
+        f["params"] = [q for q in f["params"] if q["uid"] not in drop]
+    p["consts"] = [c for c in p["consts"] if c["uid"] not in drop]
     return p
 
 
-def elements(prog):
-    out = []
-    for si, s in enumerate(prog["structs"]):
-        # a struct used as a map key must stay keyable: never empty it completely
-        for mi in range(len(s["mems"]) - 1, -1, -1):
-            if s["keyable"] and len(s["mems"]) == 1:
-                continue
-            out.append(("member", (si, mi)))
-    for fi in range(len(prog["funcs"]) - 1, -1, -1):
-        if sum(1 for f in prog["funcs"] if f["mod"] == prog["funcs"][fi]["mod"]) > 0:
-            out.append(("func", (fi,)))
-        for pi in range(len(prog["funcs"][fi]["params"]) - 1, -1, -1):
-            out.append(("param", (fi, pi)))
-    for ci in range(len(prog["consts"]) - 1, -1, -1):
-        out.append(("const", (ci,)))
-    return out
+def only(prog, uid):
+    """the program reduced to one element (plus all enum and struct definitions, emptied): isolates the construct
+    a failure is due to.  A parameter keeps its function (made void); a function keeps its return type only."""
+    p = json.loads(json.dumps(prog))
+    for s in p["structs"]:
+        keep = [m for m in s["mems"] if m["uid"] == uid]
+        if s["keyable"] and not keep:
+            keep = [dict(BENIGN)]
+        s["mems"] = keep
+    fs = []
+    for f in p["funcs"]:
+        if f["uid"] == uid:
+            f["params"] = []
+            fs.append(f)
+        elif any(q["uid"] == uid for q in f["params"]):
+            f["params"] = [q for q in f["params"] if q["uid"] == uid]
+            f["ret"] = []
+            fs.append(f)
+    p["funcs"] = fs
+    p["consts"] = [c for c in p["consts"] if c["uid"] == uid]
+    return p
 
 
 # ------------------------------------------------------------------ token sequences -> IDL text
